@@ -267,6 +267,28 @@ def sample(tr):
                 trace=[{k: v for k, v in e.items() if k not in ('pred', 'pret', 'cfg', 'env')} for e, _ in tr[1:]][:60])
 
 
+def drift_detail(tr):
+    last, act = 0, []
+    for e, _ in tr:
+        if e['ev'] == 'call':
+            last = 0
+        if e['ev'] == 'cmd' and not e.get('unexpected_clear'):
+            v = e['verb']
+            mm = e['m'] if v in ('MAIL', 'RCPT') else (last if v in ('NOOP', 'RSET', 'DATA') else 0)
+            act.append((v, mm, e['r'] if v in ('RCPT', 'EHLO', 'HELO', 'AUTHRESP') else 0))
+            if v == 'MAIL':
+                last = e['m']
+        elif e['ev'] == 'eod':
+            act.append(('EOD', e['m'], 0))
+    b = tr[0][0]
+    rr = [e for e, _ in tr if e['ev'] == 'ret']
+    return ['  drift sample %s: env=%s' % (b.get('scn'), json.dumps(b.get('env'))),
+            '    predicted: %s' % [(p['v'], p['m'], p['r']) for p in b['pred']],
+            '    recorded : %s' % act,
+            '    predicted ret: %s' % json.dumps(b['pret'])[:400],
+            '    recorded rets: %s' % json.dumps([{k: v for k, v in r.items() if k != 'text'} for r in rr])[:600]]
+
+
 def nontrivial(begin):
     return bool(begin.get('env')) or any(x != 'ok' for x in begin['cfg'].get('rf', []))
 
